@@ -32,6 +32,15 @@ def oracle(case, r):
         for fid, h in hits.items():
             if runs.get(fid, 0) != h:
                 bad.append({'function': int(fid), 'executions_through_decorated_object': runs.get(fid, 0), 'reported_hits': h})
+    # clean-up code of generator bodies (run inside close() / aclose()) is profiled like the rest of the body
+    if plain_tower(case['tower']) and 'cleanup_runs' in x:
+        cr = {}
+        for fid, depth in x['cleanup_runs']:
+            cr[str(fid)] = cr.get(str(fid), 0) + 1
+            if depth < 1:
+                bad.append({'function': fid, 'clean_up_code_ran_outside_the_profiler': depth})
+        if cr != x['cleanup_hits']:
+            bad.append({'clean_up_line_executions': cr, 'reported_hits': x['cleanup_hits']})
     # using the decorated object executes the underlying function (the one the undecorated object executes)
     for acc, a in zip(case['accesses'], x['accesses']):
         fids = lambda evs: [e.split(':')[1] for e in evs if e.startswith('run:')]   # noqa
